@@ -155,6 +155,10 @@ def myatofFloat (s : Bytes) : Float :=
 def hex64 (x : UInt64) : String := String.ofList ((List.range 16).map fun i => hexDigit ((x.toNat >>> (60 - 4 * i)) % 16))
 def hex32 (x : UInt32) : String := String.ofList ((List.range 8).map fun i => hexDigit ((x.toNat >>> (28 - 4 * i)) % 16))
 
+/-- "filler-filler-filler-filler": the other elements of the output array in the `split…self` ops -/
+def fillerText : Bytes := [102, 105, 108, 108, 101, 114, 45, 102, 105, 108, 108, 101, 114, 45, 102, 105, 108, 108, 101, 114, 45,
+  102, 105, 108, 108, 101, 114]
+
 def sgn (x : Int) : Int := if x < 0 then -1 else if x > 0 then 1 else 0
 
 /-- mutate `cur` -/
@@ -279,6 +283,17 @@ def step (st : St) (ts : List String) : St × String :=
   | ["splitjoin", h] => match unhex h with
     | some sep => qry st fun r => if sep.isEmpty then "err empty" else
         showO ((Rep.ofBytes sep).bind fun sp => (r.split sep).bind fun l => Rep.join sp l)
+    | none => (st, "bad-op")
+  -- the output array holds the operands: out = [filler, cur, filler]; `out[1].split(sep, out)` etc.
+  | ["splitself", h] => match unhex h with
+    | some sep => qry st fun r => if sep.isEmpty then "err empty" else
+        showList ((Rep.ofCStr fillerText).bind fun f => (r.copy).bind fun c => Rep.splitElem [f, c, f] 1 sep)
+    | none => (st, "bad-op")
+  | ["splitwsself"] => qry st fun r =>
+      showList ((Rep.ofCStr fillerText).bind fun f => (r.copy).bind fun c => Rep.splitWsElem [f, c, f] 1)
+  | ["splitsepself", h] => match unhex h with
+    | some sep => qry st fun r => if sep.isEmpty then "err empty" else
+        showList ((Rep.ofCStr fillerText).bind fun f => (Rep.ofBytes sep).bind fun sp => Rep.splitSepElem r [f, sp, f] 1)
     | none => (st, "bad-op")
   | ["splitws"] => qry st fun r =>
       showList r.splitWs
